@@ -19,6 +19,14 @@ historical definition with a checked statement, section 4):
   (`C19_fixed_rune_arg_was_bytewise`), `math.abs` clears the sign bit
   (`C19_fixed_abs_kept_negzero`, `C19_fixed_abs_differs_iff`), `math.pow10` hands an int to
   `math.Pow10` unchanged (`C19_fixed_pow10_exponent_wrapped`).
+
+Section 7 (added after a missed seeded change: a literal fast path in `replace_all`): the
+hand-written wrappers of modules/regexp.  `C19_rx_agree` (Impl = Spec for every wrapper of the
+regenerated inventory, every Go behaviour, every argument list), `C19_rx_glue` /
+`C19_rx_glue_wrap` (result = inject (f (project args)); `glue_faithful` itself applies),
+`rx_optional_default`, `C19_rx_no_panic`; the template model with
+`literal_fast_path_agrees_without_dollar`, `C19_counterexample_literal_fast_path` and the
+sensitivity statement `rx_second_path_breaks_glue`.
 -/
 namespace Risor.C19
 
@@ -865,5 +873,220 @@ example : valueObjs [.val (.str [104]), .val (.bytes [105]), .buffer [120, 104, 
   simp at ho
   rcases ho with rfl | rfl | rfl | rfl <;> rfl
 example : (Obj.buffer [120, 104, 105] 1).asVal = .bytes [104, 105] := rfl
+
+/-! ## 7. The hand-written wrappers of modules/regexp: one library call, its result injected
+
+The Go package `regexp` is the reference (the property's own wording), so it is a parameter
+(`GoFunE`: value, `error` result or panic).  What the theorems establish for EVERY wrapper of
+the inventory `rxSigs` — tied to modules/regexp/regexp.go and regexp_object.go by `rxSigs_tie` —
+is that the wrapper adds nothing of its own: because its body is the ONE library call
+(`Body.direct`), its result is `inject (f (project args))`, a Go `error` comes back as an error
+value, and it panics only if Go does.  Agreement with Go therefore rests on the tie (the body is
+that one call) and on the correspondence (the harness calls the same Go function directly). -/
+
+/-- a complete argument list is left as it is by the filling-in of the optional argument -/
+theorem RxSig.fill_full (w : RxSig) (args : List Val) (h : args.length = w.sig.args.length) :
+    w.fill args = args := by
+  unfold RxSig.fill
+  split
+  · rw [if_neg]; omega
+  · rfl
+
+/-- a Go function without an error result gives the same outcome through `outOfE` as through `outOf` -/
+theorem outOfE_lift (f : GoFun) (gs : List GoVal) : outOfE (liftFun f gs) = outOf (f gs) := by
+  unfold liftFun
+  cases f gs <;> rfl
+
+/-- a wrapper whose body is the direct call does not depend on what another body would do -/
+theorem rxWrap_direct_alt (w : RxSig) (hd : w.body = .direct) (f : GoFunE) (alt alt' : List GoVal → Out)
+    (args : List Val) : rxWrap w f alt args = rxWrap w f alt' args := by
+  unfold rxWrap
+  simp [hd]
+
+/-- RX GLUE FAITHFUL: for every regexp wrapper whose body is the direct call, every Go function
+    `f` (value, error or panic), and every tuple of Go values of the wrapper's types (for a method:
+    the compiled pattern first), the wrapper called on the injected tuple returns exactly what
+    `f` returns on that tuple — the injected value, an error value for a Go `error`. -/
+theorem rx_glue_faithful (w : RxSig) (hd : w.body = .direct) (f : GoFunE) (alt : List GoVal → Out)
+    (gs : List GoVal) (h : fitsAll w.sig.args gs = true) :
+    rxWrap w f alt (gs.map inject) = outOfE (f (passed w.sig gs)) := by
+  have hl : (gs.map inject).length = w.sig.args.length := by simp [fitsAll_length _ _ h]
+  unfold rxWrap
+  rw [RxSig.fill_full w _ hl]
+  simp [hl, projectAll_inject _ _ h, hd]
+
+/-- THE OMITTED OPTIONAL ARGUMENT: a wrapper with an optional last parameter (`find_all`,
+    `split`: `n := -1`) called without it hands the Go function the default. -/
+theorem rx_optional_default (w : RxSig) (hd : w.body = .direct) (d : Int) (ho : w.optInt = some d)
+    (f : GoFunE) (alt : List GoVal → Out) (gs : List GoVal)
+    (h : fitsAll w.sig.args (gs ++ [.int d]) = true) :
+    rxWrap w f alt (gs.map inject) = outOfE (f (passed w.sig (gs ++ [.int d]))) := by
+  have hl := fitsAll_length _ _ h
+  have hf : w.fill (gs.map inject) = (gs ++ [GoVal.int d]).map inject := by
+    unfold RxSig.fill
+    rw [ho]
+    simp only [List.length_map, List.length_append, List.length_cons, List.length_nil] at hl ⊢
+    rw [if_pos (by omega)]
+    simp [inject]
+  have hl' : ((gs ++ [GoVal.int d]).map inject).length = w.sig.args.length := by simpa using hl
+  unfold rxWrap
+  rw [hf]
+  simp only [hl', ne_eq, not_true_eq_false, if_false, projectAll_inject _ _ h, hd]
+
+/-- REDUCTION TO THE GENERATED-WRAPPER GLUE: a direct regexp wrapper around a Go function that
+    has no error result IS the glue `wrap` of section 4 on the filled-in argument list — so
+    `glue_faithful`, `wrap_no_panic` and the argument-object theorems of section 6 apply to it
+    as they stand. -/
+theorem rx_wrap_eq_wrap (w : RxSig) (hd : w.body = .direct) (hp : w.sig.pre = []) (f : GoFun)
+    (alt : List GoVal → Out) (args : List Val) :
+    rxWrap w (liftFun f) alt args = wrap w.sig f (w.fill args) := by
+  unfold rxWrap wrap callInner refuses
+  simp only [hd, hp, List.any_nil, outOfE_lift]
+  rfl
+
+/-- hence `glue_faithful` literally: result = inject (f (project args)) -/
+theorem rx_glue_faithful_via_wrap (w : RxSig) (hd : w.body = .direct) (hp : w.sig.pre = []) (f : GoFun)
+    (alt : List GoVal → Out) (gs : List GoVal) (h : fitsAll w.sig.args gs = true) :
+    rxWrap w (liftFun f) alt (gs.map inject) = outOf (f (passed w.sig gs)) := by
+  rw [rx_wrap_eq_wrap w hd hp, RxSig.fill_full w _ (by simp [fitsAll_length _ _ h])]
+  exact glue_faithful_plain w.sig hp f gs h
+
+/-- ERRORS ARE VALUES (regexp): whatever the arguments (any number, any types, any pattern), a
+    direct wrapper around a Go function that does not panic returns a value or an error value;
+    in particular an invalid pattern (`regexp.Compile` / `MatchString` report an `error`) is an
+    error value. -/
+theorem rx_no_panic (w : RxSig) (hd : w.body = .direct) (f : GoFunE) (hf : ∀ gs, f gs ≠ .panic)
+    (alt : List GoVal → Out) (args : List Val) : rxWrap w f alt args ≠ .panic := by
+  unfold rxWrap
+  split
+  · simp
+  · split
+    · simp
+    · rename_i gs _
+      simp only [hd]
+      cases hfg : f (passed w.sig gs) with
+      | val r => simp [outOfE]
+      | error => simp [outOfE]
+      | panic => exact absurd hfg (hf _)
+
+/-- an `error` result of the Go function (an invalid pattern) comes back as an error value -/
+theorem rx_invalid_pattern_is_error (w : RxSig) (hd : w.body = .direct) (f : GoFunE)
+    (alt : List GoVal → Out) (gs : List GoVal) (h : fitsAll w.sig.args gs = true)
+    (he : f (passed w.sig gs) = .error) : rxWrap w f alt (gs.map inject) = .err := by
+  rw [rx_glue_faithful w hd f alt gs h, he]; rfl
+
+/-- the reviewed fact of the inventory: EVERY wrapper of modules/regexp has the direct body and
+    makes no test of its own (decided over the table; `rxSigs_tie` ties the table to the source) -/
+theorem rxSigs_direct : ∀ w ∈ rxSigs, w.body = .direct ∧ w.sig.pre = [] := by decide
+
+/-- FULL STATEMENT (wrapped-function agreement, regexp): every wrapper of modules/regexp, for
+    every Go library behaviour, whatever any other body would compute, and for every argument
+    list, returns what the Spec demands: arity/type errors for ill-formed calls, otherwise the
+    injection of the Go function's result on the projected arguments, a Go `error` as an error
+    value. -/
+def C19_full_rx_agree : Prop :=
+  ∀ w ∈ rxSigs, ∀ (f : GoFunE) (alt : List GoVal → Out) (args : List Val),
+    rxWrap w f alt args = rxSpec w f args
+
+theorem C19_rx_agree : C19_full_rx_agree := by
+  intro w hw f alt args
+  have hd := (rxSigs_direct w hw).1
+  have hw' : { w with body := Body.direct } = w := by
+    cases w; simp only at hd; subst hd; rfl
+  unfold rxSpec
+  rw [hw']
+  exact rxWrap_direct_alt w hd f alt _ args
+
+/-- for every inventoried wrapper the glue theorem applies: result = inject (f (project args)) -/
+theorem C19_rx_glue : ∀ w ∈ rxSigs, ∀ (f : GoFunE) (alt : List GoVal → Out) (gs : List GoVal),
+    fitsAll w.sig.args gs = true → rxWrap w f alt (gs.map inject) = outOfE (f (passed w.sig gs)) :=
+  fun w hw f alt gs h => rx_glue_faithful w (rxSigs_direct w hw).1 f alt gs h
+
+/-- … and `glue_faithful` of section 4 itself, for a library function without an error result
+    (every method of a compiled pattern) -/
+theorem C19_rx_glue_wrap : ∀ w ∈ rxSigs, ∀ (f : GoFun) (alt : List GoVal → Out) (gs : List GoVal),
+    fitsAll w.sig.args gs = true → rxWrap w (liftFun f) alt (gs.map inject) = outOf (f (passed w.sig gs)) :=
+  fun w hw f alt gs h => rx_glue_faithful_via_wrap w (rxSigs_direct w hw).1 (rxSigs_direct w hw).2 f alt gs h
+
+/-- … and no wrapper of modules/regexp panics unless the Go library does -/
+theorem C19_rx_no_panic : ∀ w ∈ rxSigs, ∀ (f : GoFunE), (∀ gs, f gs ≠ .panic) →
+    ∀ (alt : List GoVal → Out) (args : List Val), rxWrap w f alt args ≠ .panic :=
+  fun w hw f hf alt args => rx_no_panic w (rxSigs_direct w hw).1 f hf alt args
+
+/-! ### replacement templates: why a second path (a literal fast path) is not the Go function -/
+
+/-- a template without `$` has no reference to cut at -/
+theorem cutWhile_no_dollar : ∀ t : Bytes, 36 ∉ t → cutWhile (· != 36) t = (t, [])
+  | [], _ => rfl
+  | c :: t, h => by
+    have hc : c ≠ 36 := fun e => h (by simp [e])
+    have ht : 36 ∉ t := fun e => h (by simp [e])
+    simp [cutWhile, hc, cutWhile_no_dollar t ht]
+
+/-- a template without `$` expands to itself, whatever the match -/
+theorem expand_no_dollar (groups : List (Option Bytes)) (names : List Bytes) (t : Bytes) (h : 36 ∉ t) :
+    expand groups names t = t := by
+  unfold expand expandF
+  rw [cutWhile_no_dollar t h]
+
+/-- `$$` is one `$`; `$0` / `${0}` is the match; a group that does not exist is empty; a `$` that
+    starts no reference (at the end, before a space, `${` unclosed) stays; `$1x` is the NAME
+    `1x`, not group 1 followed by `x`; `$01` is a name as well -/
+theorem expand_examples :
+    expand [some [97]] [[]] [36, 36] = [36] ∧
+    expand [some [97]] [[]] [60, 36, 48, 62] = [60, 97, 62] ∧
+    expand [some [97]] [[]] [60, 36, 123, 48, 125, 62] = [60, 97, 62] ∧
+    expand [some [97]] [[]] [60, 36, 49, 62] = [60, 62] ∧
+    expand [some [97]] [[]] [120, 36] = [120, 36] ∧
+    expand [some [97]] [[]] [36, 32, 36, 123, 48] = [36, 32, 36, 123, 48] ∧
+    expand [some [97, 98], some [97], some [98]] [[], [], []] [36, 49, 120] = [] ∧
+    expand [some [97, 98], some [97], some [98]] [[], [], []] [36, 123, 49, 125, 120] = [97, 120] ∧
+    expand [some [97, 98], some [97], some [98]] [[], [110], []] [36, 110, 45, 36, 50, 45, 36, 48, 49] = [97, 45, 98, 45] ∧
+    expand [some [97], none, some [97]] [[], [110], [110]] [36, 110] = [97] := by decide
+
+/-- WHERE A LITERAL FAST PATH IS RIGHT: for a non-empty literal pattern the matches are the
+    occurrences of the literal, so `strings.ReplaceAll` and `ReplaceAllString` agree for every
+    subject — PROVIDED the replacement contains no `$` … -/
+theorem literal_fast_path_agrees_without_dollar (s lit repl : Bytes) (h : 36 ∉ repl) :
+    stringsReplaceAll s lit repl = regexpReplaceAllLit s lit repl := by
+  unfold stringsReplaceAll regexpReplaceAllLit
+  rw [expand_no_dollar _ _ repl h]
+
+/-- … AND WHERE IT IS NOT: the full statement fails on `"10 USD"`, pattern `USD`, template `$$`
+    (Go: `"10 $"`; verbatim: `"10 $$"`). -/
+def C19_full_literal_fast_path : Prop :=
+  ∀ s lit repl : Bytes, lit ≠ [] → stringsReplaceAll s lit repl = regexpReplaceAllLit s lit repl
+
+theorem C19_counterexample_literal_fast_path : ¬ C19_full_literal_fast_path := by
+  intro h
+  have := h [49, 48, 32, 85, 83, 68] [85, 83, 68] [36, 36] (by decide)
+  revert this
+  decide
+
+/-- SENSITIVITY (why `Body.direct` is part of the inventory): give `replace_all` a body with a
+    second path — `strings.ReplaceAll` for a literal pattern — and the glue statement fails, for
+    the Go behaviour on literal patterns modelled above: on (`USD`, `"10 USD"`, `$$`) the wrapper
+    returns `"10 $$"`, the Go function `"10 $"`. -/
+theorem rx_second_path_breaks_glue :
+    let w : RxSig := ⟨⟨"replace_all", "Regexp.ReplaceAllString", [.str, .str, .str], [0, 1, 2], .str, []⟩, true, none, false, false, .other⟩
+    let f : GoFunE := fun gs => match gs with
+      | [.str lit, .str s, .str repl] => .val (.str (regexpReplaceAllLit s lit repl))
+      | _ => .panic
+    let alt : List GoVal → Out := fun gs => match gs with
+      | [.str lit, .str s, .str repl] => .val (.str (stringsReplaceAll s lit repl))
+      | _ => .panic
+    let gs : List GoVal := [.str [85, 83, 68], .str [49, 48, 32, 85, 83, 68], .str [36, 36]]
+    fitsAll w.sig.args gs = true ∧
+    rxWrap w f alt (gs.map inject) = .val (.str [49, 48, 32, 36, 36]) ∧
+    outOfE (f (passed w.sig gs)) = .val (.str [49, 48, 32, 36]) := by
+  refine ⟨by decide, ?_, ?_⟩ <;> rfl
+
+/-- non-vacuity: the inventory is not empty, `replace_all` is in it with the direct body, the
+    hypotheses of the glue theorem are satisfiable, and the optional argument has a default -/
+example : (findRx "replace_all").map (·.body) = some .direct := by decide
+example : (findRx "find_all").map (·.optInt) = some (some (-1)) := by decide
+example : (findRx "replace_all").map (fun w => fitsAll w.sig.args [.str [97, 43], .str [98, 97, 97, 98], .str [36, 48]]) = some true := by decide
+example : (findRx "split").map (fun w => rxWrap w (fun gs => .val (.strs (gs.map fun _ => []))) (fun _ => .panic) [.str [97], .str [98]])
+    = some (.val (.list (.cons (.str []) (.cons (.str []) (.cons (.str []) .nil))))) := rfl
 
 end Risor.C19
